@@ -196,6 +196,31 @@ CHECKS = {
                          "with a liveness battery after every restore; crash triage in child "
                          "interpreters",
         design="4 (C14)"),
+    "C10": dict(
+        level="exploration",
+        text=("Seeded simulated histories on 2-5 instances (created at generated moments) of a "
+              "generated class and a subclass overriding defaults, with eleven default kinds "
+              "(constant, list/dict copy, List/Dict/Set objects, factory, _name_default, Tuple "
+              "and Union with container members, Instance with args): reads and re-reads, "
+              "in-place mutation of default containers (also nested in the Tuple), valid and "
+              "invalid assignments, registering/removing on_trait_change and observe handlers "
+              "(copy-on-write instance traits), add_trait/remove_trait, gc, drop of siblings, "
+              "pickle restart of an instance. Default methods, the factory and all handlers are "
+              "callback points. After every op: first reads equal the declared default and "
+              "reach no handler of any mechanism, default methods ran at most once per "
+              "(instance, attribute), re-reads return the same object, no two instances hold "
+              "the same mutable default object, handlers were called only for the instance that "
+              "changed, every sibling still holds exactly what its own history says, class-level "
+              "notifier populations and base traits are unchanged and a fresh instance of each "
+              "class reads the declared defaults and none of the added instance traits. "
+              "Sampling, not proof."),
+        note=("Defaults are compared structurally; the class trait dict caching resolved "
+              "wildcard traits for names that were merely looked up is not counted as a change "
+              "of definitions."),
+        technique=TECH + "seeded multi-instance histories (creation order, gc, drop, restart) "
+                         "with default factories and handlers as callback points, "
+                         "non-interference checked against per-instance models",
+        design="4 (C10)"),
 }
 
 NOT_APPLICABLE = {
